@@ -112,6 +112,7 @@ type Engine struct {
 	watched      map[*Loc]bool
 	watchHits    int
 	sleepBudget  int
+	noTickerMsg  string // vNoTickers: the harness' oracle does not apply to code that paces with a ticker (machinery stop, never a violation)
 	declined     bool
 	precise      bool
 	hb           *hbState
@@ -527,6 +528,7 @@ func (e *Engine) resetPathState() {
 	e.watched = nil
 	e.watchHits = 0
 	e.sleepBudget = -1
+	e.noTickerMsg = ""
 	e.precise = false
 	e.hbReset()
 	e.spawnRan = map[int]bool{}
